@@ -144,8 +144,14 @@ def check(ctx, run):
     # their checking-period stamp for the next test
     table_walk_rules(prog, run, "R2", "R2", only=("getFirstLeak", "getNextLeak"))
     ct = [f for f in prog.methods_of(DET) if f.kind == "ctor"][0]
-    a = [(l, render(ct, r)) for l, r, n in assignments(ct)]
-    run.ob("R2", "a new detector starts disabled", ct.site, ("current_period_", "mem_leak_period_disabled") in a, witness=a)
+    e1 = Evaluator(prog, ct, env={q["name"]: 7000 + i_ for i_, q in enumerate(ct.params)}, calls={"SimpleMutex::SimpleMutex": lambda *a_: 0})
+    e1.objects = True
+    try:
+        e1.run_blocks(ct.entry, max_steps=400)
+    except Unknown:
+        pass
+    a = {k_: v for k_, v in e1.env.items() if k_ in ("current_period_", "doAllocationTypeChecking_", "allocationSequenceNumber_", "current_allocation_stage_")}
+    run.ob("R2", "a new detector starts disabled", ct.site, a.get("current_period_") == DISABLED, witness={k_: str(v) for k_, v in a.items()})
 
     # ---------------- R3 ----------------------------------------------------
     ro = prog.fn("UtestShell::runOneTestInCurrentProcess")
